@@ -235,12 +235,12 @@ func (s *MemStream) SetWriteDeadline(time.Time) error { return nil }
 
 // MemListener is an in-memory net.Listener.
 type MemListener struct {
-	n      *MemNet
-	addr   *net.TCPAddr
-	ch     chan *MemStream
-	closed chan struct{}
-	once   sync.Once
-	Closes int
+	n       *MemNet
+	addr    *net.TCPAddr
+	ch      chan *MemStream
+	closed  chan struct{}
+	once    sync.Once
+	Closes  int
 	aliases []string
 }
 
